@@ -93,6 +93,8 @@ pub fn run(progs: &str, allcuts: bool, out: &str) -> std::io::Result<()> {
         let fin_calls: Vec<usize> = steps.iter().enumerate().filter(|(_, s)| s["op"] == "finalize").map(|(i, _)| i).collect();
         struct Ref { call: usize, listing: String, ops: Vec<(String, String)>, nblobs: usize }
         let mut refs: Vec<Ref> = Vec::new();
+        // the XML of every finalized version, as the static helper returns it
+        let mut ref_xmls: Vec<Vec<u8>> = Vec::new();
         let mut complete_opens = false;
         for (k, fc) in fin_calls.iter().enumerate() {
             let image = if k + 1 == fin_calls.len() && *fc + 1 == steps.len() {
@@ -104,6 +106,9 @@ pub fn run(progs: &str, allcuts: bool, out: &str) -> std::io::Result<()> {
                 run_writer(&pre, &d, &mut null);
                 d.snapshot()
             };
+            if let Ok(Ok(x)) = catch(|| E57Reader::raw_xml(Dev::from_bytes(image.clone()))) {
+                ref_xmls.push(x);
+            }
             if let Ok(mut rd) = E57Reader::new(Dev::from_bytes(image)) {
                 let listing = listing(&rd);
                 let pcs = rd.pointclouds();
@@ -176,8 +181,14 @@ pub fn run(progs: &str, allcuts: bool, out: &str) -> std::io::Result<()> {
                 Ok(Err(_)) => (0, 0, vec![]),
                 Err(m) => (2, 0, vec![json!(["open", format!("panic:{m}")])]),
             };
+            // the static helper that needs no open reader: an error, or the XML of a finalized version
+            let rawxml = match catch(|| E57Reader::raw_xml(Dev::from_bytes(img.to_vec()))) {
+                Ok(Ok(x)) => if ref_xmls.iter().any(|r| r == &x) { "same" } else { "diff" },
+                Ok(Err(_)) => "err",
+                Err(_) => "panic",
+            };
             t.ev(json!({"ev":"c15_img","w":wj,"cut":cut,"n":n,"size":img.len(),"fin_started": if fin_started {1} else {0},
-                        "accepted":accepted,"listing_same":lsame,"ops":ops}));
+                        "accepted":accepted,"listing_same":lsame,"ops":ops,"rawxml":rawxml}));
         };
         let mut cur: Vec<u8> = Vec::new();
         for (j, (pos, data)) in writes.iter().enumerate() {
